@@ -2,6 +2,8 @@
 package c02
 
 import (
+	"context"
+	"database/sql"
 	"database/sql/driver"
 	"encoding/json"
 	"fmt"
@@ -16,6 +18,7 @@ import (
 
 	"seata.apache.org/seata-go/pkg/protocol/branch"
 	"seata.apache.org/seata-go/pkg/protocol/message"
+	"seata.apache.org/seata-go/pkg/tm"
 	"seata.apache.org/seata-go/pkg/util/vshim/vtime"
 
 	"verifharness/atrun"
@@ -89,6 +92,17 @@ func programs(thorough bool) []gen.Program {
 		for _, a := range al {
 			for _, pinned := range []bool{false, true} {
 				out = append(out, gen.Program{Schema: s.ID, Steps: []gen.Step{{Stmt: a, Group: 1}, {Stmt: al[1], Group: 1}}, Pinned: pinned, ContinueOnError: true, KeepTx: true, Init: []int{0, 1, 2}})
+			}
+		}
+		// two connections: the first step's connection stays checked out, the second step reaches the database on another one
+		for i, a := range al {
+			for j, b := range al {
+				if !thorough && (i+j)%2 == 1 {
+					continue
+				}
+				for _, part := range [][]int{{0, 0}, {1, 2}, {0, 1}} {
+					out = append(out, gen.Program{Schema: s.ID, Steps: []gen.Step{{Stmt: a, Group: part[0]}, {Stmt: b, Group: part[1]}}, TwoConns: true, Init: []int{0, 1, 2}})
+				}
 			}
 		}
 		// length 2: same local transaction, and two local transactions
@@ -468,6 +482,9 @@ func shape(p gen.Program) string {
 	if p.Pinned {
 		out += "-pinned"
 	}
+	if p.TwoConns {
+		out += "-twoconns"
+	}
 	if p.ContinueOnError {
 		out += "-continue"
 	}
@@ -616,6 +633,34 @@ func failedStatementLeavesNoImage(e *sys.Env, c Case, rr *runResult) (clause, de
 	return "", ""
 }
 
+// keeper is the connection of the very first AT transaction of the process. It stays checked out (idle) for the whole run,
+// so that whatever the client caches at first use and wrongly ties to that connection (a prepared statement, say) is still
+// alive - and shows - when the later transactions run on other connections.
+var keeper *sql.Conn
+
+func keepFirstUse(e *sys.Env) {
+	if keeper != nil {
+		return
+	}
+	if err := atrun.Reset(e, &gen.S1, []int{0, 1, 2}); err != nil {
+		return
+	}
+	c, err := e.AT.Conn(context.Background())
+	if err != nil {
+		return
+	}
+	var xid string
+	tm.WithGlobalTx(context.Background(), &tm.GtxConfig{Name: "c02-first-use"}, func(ctx context.Context) error {
+		xid = tm.GetXID(ctx)
+		_, err := c.ExecContext(ctx, "UPDATE t_s1 SET cnt = cnt + 1 WHERE id = 1")
+		return err
+	})
+	if xid != "" {
+		e.TC.DriveCommit(xid)
+	}
+	keeper = c
+}
+
 func evalCase(r *rep.Run, e *sys.Env, c Case, idx int) {
 	rr, broken := run(e, c)
 	if broken != "" {
@@ -654,7 +699,7 @@ func evalCase(r *rep.Run, e *sys.Env, c Case, idx int) {
 
 func Run(r *rep.Run) {
 	thorough := r.Tier == "thorough"
-	r.Rule = "programs of 1-2 statements from a reduced alphabet (insert, update, delete, upsert, multi-row update) over s1 (single key), s2 (auto-increment), s3 (composite key), in autocommit and explicit local transactions, pool and pinned connection; the fault-free run is recorded as a step list (every database operation of the business callback, every BranchRegister, the BranchReport), then re-run with every single deviation (thorough: every pair for length-1 programs): " +
+	r.Rule = "programs of 1-2 statements from a reduced alphabet (insert, update, delete, upsert, multi-row update) over s1 (single key), s2 (auto-increment), s3 (composite key), in autocommit and explicit local transactions, pool, pinned connection and two connections (the first step's connection stays checked out); the fault-free run is recorded as a step list (every database operation of the business callback, every BranchRegister, the BranchReport), then re-run with every single deviation (thorough: every pair for length-1 programs): " +
 		"database error / connection loss at step k, registration answered lock-conflict / failure / transport error / no reply (virtual timeout), report failing 1, 2, 4, 5 or all attempts. Non-trivial = at least one deviation."
 	r.Assume = []string{"memdb assumptions A1-A7; a failed COMMIT leaves nothing committed (the server rolls back)", "connection loss = the statement fails with driver.ErrBadConn and the server drops the connection's transaction", "time is virtual (overlay)"}
 	shard, nshards, worker := rep.Shard()
@@ -670,6 +715,7 @@ func Run(r *rep.Run) {
 			}
 			json.Unmarshal(b, &f)
 			e := atrun.EnvFor("c02", sys.Options{NoXA: true})
+			keepFirstUse(e)
 			for i := 0; i < 3; i++ {
 				evalCase(r, e, f.Case.Case, f.Case.Idx)
 			}
@@ -679,6 +725,7 @@ func Run(r *rep.Run) {
 		return
 	}
 	e := atrun.EnvFor("c02", sys.Options{NoXA: true})
+	keepFirstUse(e)
 	Enumerate(e, thorough, func(idx int, c Case) {
 		if idx%nshards != shard {
 			return
